@@ -43,8 +43,10 @@ def parse(text):
         elif cur is None:
             continue
         elif l.startswith("H "):
-            left, _, res = l.partition(" => ")
+            left, sep, res = l.partition(" => ")
             w = left.split()
+            if not sep or not res.strip() or len(w) < 6:
+                continue        # a line cut short by a crash of the process; the crash itself is reported
             cur.h.append({"tid": int(w[1]), "idx": int(w[2]), "inv": int(w[3]), "ret": int(w[4]), "op": w[5:], "res": res})
         elif l.startswith("NV "):
             w = l.split()
